@@ -9,7 +9,7 @@ import gen
 from koala.lattice import Lattice, LatticeException, cut_boundaries, permute_vertices
 from koala.graph_utils import remove_vertices, remove_trailing_edges, reorder_vertices
 
-DRIVERS = ("c12",)
+DRIVERS = ("c12", "lat")
 MODEL_TARGETS = ["Model/Lattice.vo", "Model/Surgery.vo"]
 TARGETS = ["Proofs/SurgeryFacts.vo"]
 LEVEL = "proof"
@@ -51,8 +51,6 @@ def impl_op(lat, op):
 
 def plaqs(lat):
     """canonical plaquette records of the implementation, or None when the finder raises"""
-    if lat.n_vertices == 0:
-        return []     # Lattice with zero vertices: .plaquettes raises ValueError (np.max of an empty array); not C12's subject
     try:
         pl = lat.plaquettes
     except LatticeException:
@@ -208,11 +206,9 @@ def spec_plaquettes(op, P_in, P_out, emap, vmap, lat_in, lat_out, truthful):
                 qv = q["v"][j0:] + q["v"][:j0]
                 if pv != qv:
                     bad.append((f"{k}:plaquette-vertices", f"{k}: surviving plaquette's vertices are not the renamed vertices"))
+    new = []
     if k in ("cut", "trail") and truthful:
-        new = [key for key in out_by if key not in mapped_in]
-        if new:
-            q = out_by[new[0]]
-            bad.append((f"{k}:new-plaquette", f"{k}: output has {len(new)} plaquette(s) that are not plaquettes of the input, e.g. on output edges {q['e'][:8]}"))
+        new = [out_by[key] for key in out_by if key not in mapped_in]
     if k in ("perm", "reord"):
         # identical plaquette LIST (order, start, directions, centres) and identical edge vectors
         if not np.array_equal(lat_in.edges.vectors, lat_out.edges.vectors):
@@ -224,7 +220,52 @@ def spec_plaquettes(op, P_in, P_out, emap, vmap, lat_in, lat_out, truthful):
                 if p["e"] != q["e"] or p["d"] != q["d"] or [vmap[v] for v in p["v"]] != q["v"] or not np.allclose(p["c"], q["c"], rtol=0, atol=1e-12):
                     bad.append((f"{k}:plaquettes", f"{k}: plaquette {i} is not the renamed original plaquette"))
                     break
-    return bad
+    return bad, new
+
+
+def classify_new_plaquettes(k, new, emap, faces):
+    """lead's rule: a NEW output plaquette P is the known finding iff the input face walk (phi-orbit, from
+    the lat driver) through P's first dart, with all steps on removed edges deleted, is cyclically equal to
+    P, that input face failed ONLY the repeated-edge filter (in the property's wording of legitimacy: no edge
+    twice, net crossing zero, POSITIVE AREA; the coded winding-number filter rejects such a face too, but only
+    because every U-turn at a dangling tip counts as -pi: exact winding -1 - #tips), and every repeated edge in it
+    is a removed edge.
+    Anything else is '<op>:new-plaquette-other'."""
+    back = {i: e for e, i in emap.items()}
+    by_dart = {}
+    if faces is not None:
+        for f in faces:
+            for (e, v, d) in f["walk"]:
+                by_dart[(e, 1 if d else -1)] = f
+    out = []
+    for q in new:
+        P = [(back[e], d) for e, d in zip(q["e"], q["d"])]
+        f = by_dart.get(P[0])
+        known = False
+        if f is not None:
+            walk = [(e, 1 if d else -1) for (e, v, d) in f["walk"]]
+            kept = [x for x in walk if x[0] in emap]
+            es = [e for e, _ in walk]
+            repeated = {e for e in es if es.count(e) > 1}
+            known = (bool(kept) and canon(kept) == canon(P) and (not f["nodup"]) and f["netzero"] and f["area2"] > 0
+                     and all(e not in emap for e in repeated))
+        if known:
+            out.append((f"{k}:new-plaquette-from-face-with-dangling-tree",
+                        f"{k}: face whose boundary walk used a dangling edge twice becomes a plaquette once the dangling tree is removed (output edges {q['e'][:8]})"))
+        else:
+            out.append((f"{k}:new-plaquette-other", f"{k}: output has a plaquette that is not a plaquette of the input, on output edges {q['e'][:8]} (input edges {[e for e, _ in P][:8]})"))
+    return out
+
+
+def parse_faces(d):
+    if d["faces"][0] == "ERR":
+        return None
+    out = []
+    for i in range(int(d["faces"][0])):
+        c = Cursor(d[f"f{i}"])
+        walk = c.list(lambda: (c.int(), c.int(), c.next() == "1"))
+        out.append({"walk": walk, "nodup": c.next() == "1", "netzero": c.next() == "1", "winding": c.z(), "area2": c.z()})
+    return out
 
 
 # ------------------------------------------------------------------ model side
@@ -415,6 +456,7 @@ def evaluate(ctx, cases, label, plaquette_budget=None):
             scaled_of[(float(row[0]), float(row[1]))] = tuple(sc)
         lat = mk(pos, edges, cr)
         P_in = "unset"
+        faces = "unset"
         truthful = flags_truthful(pos, edges, cr)
         has_cross = bool(np.any(cr != 0))
         used = {}
@@ -482,7 +524,13 @@ def evaluate(ctx, cases, label, plaquette_budget=None):
                 if P_in is not None and P_out is None:
                     bad.append((f"{k}:stuck", f"{k}: plaquette finder raises on the output but not on the input"))
                 else:
-                    bad += spec_plaquettes(op, P_in, P_out, emap, vmap, lat, out_lat, truthful)
+                    b2, new = spec_plaquettes(op, P_in, P_out, emap, vmap, lat, out_lat, truthful)
+                    bad += b2
+                    if new:
+                        if faces == "unset":
+                            faces = parse_faces(run_driver(ctx.exe["lat"], ["faces " + ser_lattice_arrays(pos, edges, cr)[0]])[0])
+                        bad += classify_new_plaquettes(k, new, emap, faces)
+                        stats["new-plaquettes/" + k] = stats.get("new-plaquettes/" + k, 0) + len(new)
                     stats["plaquette-checked/" + k] = stats.get("plaquette-checked/" + k, 0) + 1
                     if k in ("cut", "trail") and not truthful:
                         res.skip("no-new-plaquette clause not evaluated: crossing flags not truthful")
